@@ -841,7 +841,7 @@ func c18Purity(c *bx.Ctx) {
 			msg, pan := bx.Guard(func() { r = st.run() })
 			c.T(1)
 			rp := func(exp, obs string) bx.Replay {
-				return bx.Replay{Entry: "purity", Value: valueString(v), Ops: fmt.Sprintf("step %d: %s", i, st.name), Expected: exp, Observed: obs}
+				return bx.Replay{Entry: "purity", Value: valueString(v), ValueGob: valueGob(v), Ops: fmt.Sprintf("step %d: %s", i, st.name), Expected: exp, Observed: obs}
 			}
 			if pan {
 				return // totality is C17's / C02's matter
